@@ -68,6 +68,15 @@ for p in props:
             t = re.sub(r"^(Seed\s+)?C\d\d\s*[-/]\s*[a-f]\s*[—:-]+\s*", "", t, flags=re.I)
             explored.append("  - " + t[:220])
     txt = HEAD.format(wt=wt, id=pid, title=p["title"], statement=p["statement"], q=p["quantifier"]["text"])
+    if kind == "refactor":
+        done = []
+        rd = os.path.join(VERIF, "refactors")
+        for d in sorted(os.listdir(rd)) if os.path.isdir(rd) else []:
+            if d.startswith(pid + "-") and os.path.exists(os.path.join(rd, d, "notes.md")):
+                t = open(os.path.join(rd, d, "notes.md")).readline().strip().lstrip("# ")
+                done.append("  - " + t[:200])
+        if done:
+            txt += "\nRestructurings already produced by others for this property (do something DIFFERENT in kind or at a different site):\n" + "\n".join(done) + "\n"
     txt += (SEED if kind == "seed" else REFACTOR).format(wt=wt, explored="\n".join(explored))
     txt += TAIL.format(wt=wt)
     open("%s/%s.prompt.txt" % (base, pid), "w").write(txt)
